@@ -601,8 +601,16 @@ func (m *Module) renderInjectors(p *Pkg) []world.File {
 				fmt.Fprintf(&b, "// %s is an injector.\n// It has a two-line doc comment.\n", inj.Name)
 			}
 			var ps []string
-			for _, pr := range inj.Params {
-				ps = append(ps, fmt.Sprintf("%s %s", pr.Name, m.typeExpr(p.Idx, pr.Type, imports)))
+			for i, pr := range inj.Params {
+				te := m.typeExpr(p.Idx, pr.Type, imports)
+				if inj.Variadic && i == len(inj.Params)-1 {
+					te = "..." + strings.TrimPrefix(te, "[]")
+				}
+				if inj.Unnamed {
+					ps = append(ps, te)
+				} else {
+					ps = append(ps, fmt.Sprintf("%s %s", pr.Name, te))
+				}
 			}
 			rt := m.typeExpr(p.Idx, inj.Result, imports)
 			results := rt
@@ -708,8 +716,12 @@ func (m *Module) renderDriver() world.File {
 	for _, inj := range m.Injectors {
 		imports[inj.Pkg] = true
 		var args []string
-		for _, pr := range inj.Params {
-			args = append(args, m.construct(-1, pr.Type, "simrt.ArgID()", imports, nil))
+		for i, pr := range inj.Params {
+			a := m.construct(-1, pr.Type, "simrt.ArgID()", imports, nil)
+			if inj.Variadic && i == len(inj.Params)-1 {
+				a += "..."
+			}
+			args = append(args, a)
 		}
 		call := fmt.Sprintf("%s.%s(%s)", m.alias(-1, inj.Pkg), inj.Name, strings.Join(args, ", "))
 		fmt.Fprintf(&body, "\tsimrt.Register(%q, func() {\n", m.InjKey(inj))
